@@ -321,6 +321,24 @@ func (sc *collection) doBuild(ctx context.Context) (Provider, error) {
 		}
 	}
 
+	// Phase 7: Run the root scope's initializers now that singletons exist
+	if err := p.rootScope.runInitializers(); err != nil {
+		closeErr := p.Close()
+		if closeErr != nil {
+			return nil, &BuildError{
+				Phase:   "cleanup",
+				Details: "failed to clean up partially created provider",
+				Cause:   closeErr,
+			}
+		}
+
+		return nil, &BuildError{
+			Phase:   "scope-creation",
+			Details: "failed to create root scope",
+			Cause:   err,
+		}
+	}
+
 	return p, nil
 }
 
